@@ -18,8 +18,8 @@ CLAIMED = {
     "C04": ("2 (C04)", "Reduced scope, stated: every public estimator class of the modules that load in the sandbox (listed in the evidence, with the modules that do not) is constructed with symbolic int/float/bool arguments and opaque tokens for everything else; stored attribute = get_params = passed value (z3 term equality / identity), clone and set_params round trips, unknown names rejected, nested component__param read/write and component replacement for the composites (symbolic values, concrete names), is_fitted False when fresh or cloned, apply-type methods raise NotFittedError before fit, fit returns self and leaves parameters unchanged."),
     "C15": ("2 (C15)", "Every conversion path of length <= 3 between nested (Series / array cells), 3-D array, multi-index, long and 2-D representations, plus check_X coercions and the nestedness predicates, executed on the real pandas with opaque symbolic tokens as cell values; each output cell is proved (term equality) to be the input token at the same (instance, column, time) position; sizes enumerated within the bounds. Weak use of the solver, stated as such."),
     "C19": ("2 (C19)", "The real Orchestrator / results classes executed with symbolic flags, symbolic store state and a symbolic failure point: (i) one loop iteration with 4 option flags and 3 existence answers as symbolic Booleans - skip iff nothing requested is missing and nothing is to be overwritten, exactly the missing/overwritten records written, records honest; (ii) run - fail at the K-th fit/predict (K symbolic, forked over every call) - resume - rerun - overwrite on a temporary on-disk store, compared with an uninterrupted run (files, registry, load_predictions); plus Orchestrator.fit and RAMResults read-back."),
-    "C20": ("2 (C20)", "Thirteen classes of malformed input pushed through the public entry points (fit / update / predict of forecasters and composites, splitters, evaluate, grid search, temporal_train_test_split, the horizon constructor) with the offending quantity symbolic (index labels, exogenous index offsets, horizon values, window / step / period, window vs. series length) or drawn from a finite list of type faults; on every path: rejected iff invalid, exception type in {ValueError, TypeError, NotImplementedError}, is_fitted False afterwards, valid twin accepted."),
-    "C03": ("2 (C03)", "Eighteen forecaster kinds (naive variants, polynomial trend with and without intercept, statsmodels adapter, the four reducers, ensemble, pipelines with a stub transformer and with the real Deseasonalizer, stacking, multiplexer, grid search) run symbolically with relative or absolute horizons given at fit or at predict, optionally after an update (re-estimating or not, fresh or re-sent data), on fresh and on previously fitted objects, for symbolic values and a symbolic integer index origin: one value per step, index = cutoff + fh, increasing, cutoff = last label after fit/update, finite values, and for the non-stub forecasters a second run at origin + delta (delta symbolic) proves shift invariance."),
+    "C20": ("2 (C20)", "Thirteen classes of malformed input pushed through the public entry points (fit / update / predict of forecasters and composites, splitters, evaluate, grid search, temporal_train_test_split, the horizon constructor) with the offending quantity symbolic (index labels, exogenous index offsets, horizon values, window / step / period, window vs. series length) or drawn from a finite list of type faults; on every path: rejected iff invalid, exception type in {ValueError, TypeError, NotImplementedError}, is_fitted False afterwards (and, for a refused second fit of a fitted forecaster, cutoff and remembered series still those of the accepted fit), valid twin accepted."),
+    "C03": ("2 (C03)", "Twenty forecaster kinds (naive variants, polynomial trend with and without intercept, statsmodels adapter, the Theta forecaster over the same results stub, the four reducers, ensemble, pipelines with a stub transformer and with the real Deseasonalizer, stacking, multiplexer, grid search) run symbolically with relative or absolute horizons given at fit or at predict, optionally after an update (re-estimating or not, fresh or re-sent data), on fresh and on previously fitted objects, for symbolic values and a symbolic integer index origin: one value per step, index = cutoff + fh, increasing, cutoff = last label after fit/update, finite values, and for the non-stub forecasters a second run at origin + delta (delta symbolic) proves shift invariance."),
     "C13": ("2 (C13)", "Deseasonalizer / ConditionalDeseasonalizer (symbolic seasonal vector, free integer offsets of the transformed and of an update stretch), Detrender (stub forecaster and exact least-squares default), Box-Cox / log (uninterpreted inverse pairs), TabularToSeriesAdaptor, OptionalPassthrough executed symbolically: inverse(transform(z)) = z, output index = input index, seasonal phase = position modulo sp relative to the training series before and after update, fit_transform = fit+transform; Hampel filter and Imputer rules proved invariant under a symbolic shift of the index."),
     "C10": ("2 (C10)", "Enumerated call programs over {update(T/F), predict, update_predict_single, update_predict} after fit, each executed symbolically (batch sizes, overlap, horizon, fh-at-fit flag forked; values and index origin symbolic) on NaiveForecaster variants, custom-update members (one reading its stored horizon), an ensemble, a pipeline with a stateful transformer and a stacker; remembered data = union with later values winning, cutoffs, forecasts equal to a fresh fit on the union (or to the old fitted state from the new cutoff), update_predict = the single-step sequence of a twin, cutoff restored."),
     "C08": ("2 (C08)", "ForecastingGridSearchCV / ForecastingRandomizedSearchCV fit executed symbolically (real evaluate, real splitter, real ParameterGrid/clone/set_params) over plain, pipeline (nested f__p) and multiplexer base forecasters with symbolic fold scores; cv_results_ rows, optimality of best_index_ in the declared direction, best_params_/best_score_, refit on the whole series, predict/update/cutoff delegation and NotFittedError without refit are proved on every ordering of the scores."),
